@@ -109,13 +109,29 @@ def tip_vector(dt, sym, use_amb, tip_states):
     return [1.0] * len(codes)
 
 
+def selected(seq, indices):
+    """The columns a SitePattern `indices` string selects (comma separated Python indices / slices, concatenated in the
+    order given), applied by the reference itself."""
+    if not indices:
+        return seq
+    out = ""
+    for part in indices.split(","):
+        part = part.strip()
+        if ":" in part:
+            a = [int(x) if x.strip() else None for x in part.split(":")]
+            out += seq[slice(*a)]
+        else:
+            out += seq[int(part)]
+    return out
+
+
 def ref_tips(case):
     dt = case["datatype"]
     size = 3 if dt["kind"] == "codon" else 1
     names = case["names"]
     tips = []
     for nm in names:
-        seq = case["seqs"][nm]
+        seq = selected(case["seqs"][nm], case.get("indices"))
         syms = [seq[i:i + size] for i in range(0, len(seq), size)]
         tips.append([tip_vector(dt, s, case["use_ambiguities"], case["use_tip_states"]) for s in syms])
     return np.array(tips, dtype=float)  # [n, sites, S]
@@ -276,7 +292,7 @@ def likelihood_json(case):
              "tree_model": tree_json(case),
              "site_model": gm.site_json(case["site"]),
              "substitution_model": gm.subst_json(case["subst"]),
-             "site_pattern": {"id": "sp", "type": "SitePattern", "alignment": aln}}
+             "site_pattern": dict({"id": "sp", "type": "SitePattern", "alignment": aln}, **({"indices": case["indices"]} if case.get("indices") else {}))}
     if case.get("use_ambiguities"):
         like_["use_ambiguities"] = True
     if case.get("use_tip_states"):
@@ -343,4 +359,8 @@ def random_case(rng, topo, subst_kind=None, site_kind=None, tree_kind=None, ncol
     mode = int(rng.integers(3))
     case["use_ambiguities"] = mode == 0
     case["use_tip_states"] = mode == 1
+    if dt["kind"] != "codon" and ncols >= 3 and rng.random() < 0.25:
+        # a site pattern over a subset of the columns (what partitioned analyses use), written as the `indices` key
+        opts = ["::2", "1::2", "::3", "1::3,2::3", "%d:" % int(rng.integers(1, ncols)), ":%d" % int(rng.integers(1, ncols)), "-1,0", "0,::2", "%d,%d" % (int(rng.integers(ncols)), int(rng.integers(ncols)))]
+        case["indices"] = opts[int(rng.integers(len(opts)))]
     return case
